@@ -36,6 +36,8 @@ class Spec:
     if not mset:
       return bool(self.au), False
     ok = 0 <= mval <= 10
+    if getattr(self, '_cv_active', False):
+      ok = ok and 0 <= mval <= 3          # conditional validator whose diagnosis result existed at phase start
     return ok, bool(ok and (mval <= 2 or mval >= 8))
 
   def phase(self, node, subtest, in_teardown):
@@ -93,6 +95,7 @@ class Spec:
       kind = 'timeout'
     terminal = kind in ('exception', 'failexc', 'timeout', 'stop')
     hit = (kind == 'repeat' and is_last)
+    self._cv_active = bool(opts.get('cv')) and ('A' in self.diag_results)
     m_ok, _ = self._measure_ok(name, i, opts.get('measured', True))
     if terminal or hit:
       outcome = 'ERROR'
